@@ -112,6 +112,7 @@ Lemma end_par_P s : P true s -> sinline s = [] ->
   let s' := end_par PNormal s in P true s' /\ par s' = false /\ sinline s' = [] /\ s' ~= s.
 Proof. intros (HS & Hsb & Hpr & HI) Hsi. specialize (HI eq_refl). cbv zeta. unfold end_par. destruct (par s) eqn:Ep.
   2:{ split; [split; [exact HS|split; [exact Hsb|split; [exact Hpr|intros _; exact HI]]]|]. split; [assumption|]. split; [assumption|apply eqf_refl]. }
+  cbv zeta. assert (Hsv : scope_verse (process_paragraph s) = false) by (apply scope_verse_bd; exact Hsb). rewrite Hsv. cbn [andb].
   unfold process_paragraph, format_paragraph, end_paragraph. rewrite (sd_fmt _ HS). unfold L.format_paragraph.
   set (s1 := wo (flat (buf s)) s <| buf := [] |> <| par := false |>).
   assert (F1 : s1 ~= s) by (unfold s1, wo; destruct s; reflexivity).
@@ -262,8 +263,11 @@ Proof. unfold last_scope. intro H.
     rewrite IH. destruct r as [|y r']; [reflexivity|]. change (top (x :: y :: r')) with (top (y :: r')). destruct (top (y :: r')) eqn:E; [reflexivity|]. apply top_none in E. discriminate. }
   rewrite G. destruct (top l); reflexivity. Qed.
 
-Lemma end_par_pop_comm s : fmt s = FL -> end_par PNormal (s <| sblock ::= pop |>) = (end_par PNormal s) <| sblock ::= pop |>.
-Proof. intro Hf. unfold end_par. change (par (s <| sblock ::= pop |>)) with (par s). destruct (par s) eqn:Ep; [|reflexivity].
+Lemma end_par_pop_comm s : fmt s = FL -> Forall is_bd (sblock s) -> end_par PNormal (s <| sblock ::= pop |>) = (end_par PNormal s) <| sblock ::= pop |>.
+Proof. intros Hf Hsb. unfold end_par. change (par (s <| sblock ::= pop |>)) with (par s). destruct (par s) eqn:Ep; [|reflexivity]. cbv zeta.
+  assert (Hsv1 : scope_verse (process_paragraph (s <| sblock ::= pop |>)) = false) by (apply scope_verse_bd; apply Forall_pop; exact Hsb).
+  assert (Hsv2 : scope_verse (process_paragraph s) = false) by (apply scope_verse_bd; exact Hsb).
+  rewrite Hsv1, Hsv2. cbn [andb].
   unfold process_paragraph, format_paragraph, end_paragraph.
   change (fmt (s <| sblock ::= pop |>)) with (fmt s). rewrite Hf. unfold L.format_paragraph, wo.
   change (fmt (s <| sblock ::= pop |> <| wout ::= cons (flat (buf (s <| sblock ::= pop |>))) |> <| buf := [] |> <| par := false |>)) with (fmt s).
@@ -314,7 +318,7 @@ Proof. intros HP. pose proof HP as (HS & Hsb & Hpr & HI). unfold macro_ed. destr
   assert (Hc4 : has_cur (close_unclosed_inline s3) = has_cur s3) by (apply (eqf_get has_cur _ _ (fun _ => eq_refl)), close_unclosed_inline_eqf; [exact (sd_fmt _ (proj1 HP3))|exact (sd_mk _ (proj1 HP3))]).
   set (s4 := close_unclosed_inline s3) in *. clearbody s4.
   rewrite (cub_bd _ _ s4 (proj1 (proj2 HP4))).
-  rewrite (end_par_pop_comm s4 (sd_fmt _ (proj1 HP4))).
+  rewrite (end_par_pop_comm s4 (sd_fmt _ (proj1 HP4)) (proj1 (proj2 HP4))).
   destruct (end_par_P s4 HP4 Hsi4) as (HP6 & Hp6 & Hsi6 & F6). cbv zeta in HP6, Hp6, Hsi6, F6.
   set (s6 := end_par PNormal s4) in *. clearbody s6.
   destruct HP6 as (HS6 & Hsb6 & Hpr6 & HI6). specialize (HI6 eq_refl).
